@@ -29,7 +29,9 @@ SPECS = {
         exhaustive_scope={"quick": "digraphs on 1..3 labelled nodes x request subsets", "thorough": "digraphs on 1..4 labelled nodes (65 536) x 15 request subsets"},
     ),
     "C05": dict(
-        groups=["types"],
+        groups=["types", "project"],
+        only_oracles=["denotes", "nopanic", "c12_payload_types"],
+        excluded_classes=['unsupportedType', 'undefinedNamedType', 'undocumentedItemShape', 'duplicateTypeNames', 'duplicateCommandNames', 'K18a_mappedAndDefined', 'K01a_reservedOrIllegalFnName'],
         theorems="Typegen.Theorems.C05",
         trusted_base=[LEAN_TB, HARNESS_TB,
                       "modelled, not verified: syn parses the rendered source into the tree the IR printed; proc-macro2/quote unused here",
